@@ -1,4 +1,4 @@
-import PikaVerif.Lemmas.Deque3
+import PikaVerif.Lemmas.DequeTag
 /-!
 # C17 — concurrent queues return every element exactly once (lock-free deque, back-end adapters)
 
@@ -169,6 +169,135 @@ theorem C17_deque_seq_refines_list (log : List Ev) (s s' : St) (e : Ev)
   intro t d a he hpc hret
   subst he
   exact C17_deque_pop_false_only_if_empty_partial 1 log s s' h (stale_mono hstep hs') t a d hpc hstep hret
+
+/-! ## Follow-up C17s (1): when exactly do the concurrent theorems hold for the pinned tree?
+
+The hypothesis `stale = false` of the `_partial` theorems is a flag of the model.  Here it is
+replaced by a condition **on the log**, phrased in terms of node recycling, computed by the
+monitor `Deque.Mon` that runs beside the acceptor (`Deque.stepM`, `Lemmas/DequeTag.lean`):
+
+* a thread that passed the second `anchor_ != lrs` re-check of `stabilize_left/right` (event
+  `chk … true` at `stChk2`) holds a *link snapshot* `(prev, prevnext)` until its link CAS;
+* `dirty t` — node `prev` was handed to `pool_.deallocate` (event `free`) while `t` held it;
+* `aba` — a link CAS **succeeded** although the thread's snapshot was dirty.
+
+`NoRecycledCas n log` ("no link CAS succeeds on a node that was freed after the thread took its
+snapshot of it") is what hazard pointers would enforce.  Recycling as such is allowed, also of a
+snapshotted node, as long as the late CAS fails. -/
+
+/-- the log condition: running model + recycling monitor over `log` never raises `aba` -/
+def NoRecycledCas (n : Nat) (log : List Ev) : Prop :=
+  ∀ s m, runLog (stepM false) (init n, mon0) log = some (s, m) → m.aba = false
+
+/-- **Characterisation (sufficiency).**  For every number of threads and every accepted log of the
+    pinned tree's model: if no link CAS succeeded on a node freed under the thread's snapshot, then
+    no stabilisation link CAS was stale — so every `_partial` theorem above applies. -/
+theorem C17_deque_stale_only_by_recycling (n : Nat) (log : List Ev) (s : St)
+    (h : runLog step (init n) log = some s) (hr : NoRecycledCas n log) : s.stale = false := by
+  obtain ⟨m, hm⟩ := runM_exists (fx := false) mon0 h
+  exact (stale_false_of_aba_false hm (hr s m hm)).1
+
+/-- **Exactly once, pinned tree, under the recycling condition** (all thread counts, operation
+    mixes and interleavings): conservation as a multiset, nothing popped twice or invented, drained
+    = pushed; the anchor/links describe the chain; every step refines the list deque. -/
+theorem C17_deque_conc_norecycle (n : Nat) (log : List Ev) (s : St)
+    (h : runLog step (init n) log = some s) (hr : NoRecycledCas n log) :
+    s.pushed.Perm (s.popped ++ contents s) ∧
+    (∀ v, s.popped.count v ≤ s.pushed.count v) ∧
+    (s.chain = [] → s.popped.Perm s.pushed) ∧
+    (s.pushed.Nodup → s.popped.Nodup) ∧
+    Glob s.anchor s.chain s.nodes s.used := by
+  have hs := C17_deque_stale_only_by_recycling n log s h hr
+  have hc := C17_deque_conc_partial n log s h hs
+  exact ⟨hc.1, hc.2.1, hc.2.2, C17_deque_no_duplicate_partial n log s h hs,
+    (C17_deque_chain_partial n log s h hs).1⟩
+
+/-- **Linearizability, pinned tree, under the recycling condition**: if the log extended by `e`
+    satisfies the condition, the step `e` is a stutter, an insert at an end, or the removal of the
+    end element handed to the popping thread; and a pop answers "empty" only on the empty deque. -/
+theorem C17_deque_refines_list_norecycle (n : Nat) (log : List Ev) (s s' : St) (e : Ev)
+    (h : runLog step (init n) log = some s) (hstep : step s e = some s')
+    (hr : NoRecycledCas n (log ++ [e])) :
+    Lin s s' ∧ (∀ t d a, e = .ld t a → s.pc t = .popLd d → s'.pc t = .retn false 0 → contents s = []) := by
+  have h' : runLog step (init n) (log ++ [e]) = some s' := by
+    rw [runLog_append, h]; simp [runLog, hstep]
+  have hs' := C17_deque_stale_only_by_recycling n (log ++ [e]) s' h' hr
+  refine ⟨C17_deque_refines_list_partial n log s s' e h hstep hs', ?_⟩
+  intro t d a he hpc hret
+  subst he
+  exact C17_deque_pop_false_only_if_empty_partial n log s s' h (stale_mono hstep hs') t a d hpc hstep hret
+
+/-- **The finding violates exactly this condition.**  On the witness log of the defect the
+    recycling monitor fires: thread 0 takes its snapshot of node 3 (`chk 0 true`), node 3 is freed
+    twice and re-allocated under it (`free 1 3`), thread 0's link CAS then succeeds (`lcas 0 true`):
+    `aba = true`; on the log without that CAS and what follows it the condition still holds. -/
+theorem C17_deque_witness_is_recycled_cas :
+    (runLog (stepM false) (init 2, mon0) abaLog).map (fun x => (x.2.aba, x.1.stale)) = some (true, true) ∧
+    (runLog (stepM false) (init 2, mon0) (abaLog.take 93)).map
+      (fun x => (x.2.aba, x.2.dirty 0, x.1.stale, x.1.pc 0)) =
+      some (false, true, false, .stLink .pushDone true ⟨3, 1, 1, 5⟩ ⟨3, 0⟩ ⟨2, 0⟩) ∧
+    ¬ NoRecycledCas 2 abaLog := by
+  refine ⟨by decide, by decide, ?_⟩
+  intro hr
+  have h : (runLog (stepM false) (init 2, mon0) abaLog).map (fun x => x.2.aba) = some true := by decide
+  cases hx : runLog (stepM false) (init 2, mon0) abaLog with
+  | none => simp [hx] at h
+  | some x =>
+    obtain ⟨s, m⟩ := x
+    have := hr s m hx
+    simp [hx, this] at h
+
+/-! ## Follow-up C17s (2): the repaired code (`fix:` commit on deque.hpp, model `stepF = stepG true`)
+
+`alloc_node` keeps and increments the tags it finds in the recycled memory and the inward-link
+store of `push_left/right` increments the link's tag: the tag of a link word grows with every
+write for the whole life of the deque.  Then a link CAS can only succeed if the link was not
+written since it was loaded, and (`Lemmas/DequeTag.lean`, invariant `TagInv`) the link *is* written
+before the anchor can leave the unstable state the snapshot belongs to — so a link CAS is never
+stale and the **unrestricted** statement holds. -/
+
+/-- **Exactly once, repaired code, full strength** — the statement `C17_deque_conc` that is false
+    of the pinned tree: for every number of threads, every operation mix and every interleaving,
+    with helping and node recycling: no link CAS is stale, pushed = popped + contents as multisets,
+    nothing is popped twice or invented, and once the chain is empty popped = pushed. -/
+theorem C17_deque_fixed_conc (n : Nat) (log : List Ev) (s : St)
+    (h : runLog stepF (init n) log = some s) :
+    s.stale = false ∧
+    s.pushed.Perm (s.popped ++ contents s) ∧
+    (∀ v, s.popped.count v ≤ s.pushed.count v) ∧
+    (s.chain = [] → s.popped.Perm s.pushed) := by
+  have hi := stale_false_fixed h
+  exact ⟨hi.1, conc_of_inv hi.2⟩
+
+/-- **No element is delivered twice, repaired code, full strength.** -/
+theorem C17_deque_fixed_no_duplicate (n : Nat) (log : List Ev) (s : St)
+    (h : runLog stepF (init n) log = some s) (hd : s.pushed.Nodup) : s.popped.Nodup := by
+  have hi := (stale_false_fixed h).2
+  exact (List.nodup_append.1 (hi.cons.nodup_iff.1 hd)).1
+
+/-- **The anchor and the links describe the chain, repaired code, full strength.** -/
+theorem C17_deque_fixed_chain (n : Nat) (log : List Ev) (s : St)
+    (h : runLog stepF (init n) log = some s) :
+    Glob s.anchor s.chain s.nodes s.used ∧ (s.anchor.l = 0 ↔ s.chain = []) ∧
+    (s.anchor.r = 0 ↔ s.chain = []) := by
+  have hi := (stale_false_fixed h).2
+  refine ⟨hi.glob, ⟨fun h0 => hi.glob.nil_of_end false (by simpa [Anchor.endp] using h0), ?_⟩,
+    ⟨fun h0 => hi.glob.nil_of_end true (by simpa [Anchor.endp] using h0), ?_⟩⟩
+  · intro hc; have := hi.glob.hd; rw [hc] at this; simpa using this
+  · intro hc; have := hi.glob.lst; rw [hc] at this; simpa using this
+
+/-- **Linearizability, repaired code, full strength**: every accepted step of every execution is
+    a stutter, an insert at end `d`, or the removal of the element at end `d` handed to the popping
+    thread (`Lin`); a pop answers "empty" only when the deque is empty (so a pop on a non-empty
+    deque, quiescent or not, never fails). -/
+theorem C17_deque_fixed_refines_list (n : Nat) (log : List Ev) (s s' : St) (e : Ev)
+    (h : runLog stepF (init n) log = some s) (hstep : stepF s e = some s') :
+    Lin s s' ∧ (∀ t d a, e = .ld t a → s.pc t = .popLd d → s'.pc t = .retn false 0 → contents s = []) := by
+  have hi := (stale_false_fixed h).2
+  refine ⟨step_lin hi hstep, ?_⟩
+  intro t d a he hpc hret
+  subst he
+  exact pop_false_only_if_empty_G hi t a d hpc hstep hret
 
 /-! ## Non-vacuity -/
 
